@@ -26,13 +26,18 @@ WsVariants == { M(<<>>),
                 M(<< <<U(FromSmall(2)), T(258, A(<<>>))>>, <<U(FromSmall(4)), T(258, A(<<U(One), U(One)>>))>> >>),
                 M(<< <<U(Zero), T(258, A(<<VkeyW(9)>>))>>, <<U(FromSmall(4)), A(<<>>)>>, <<U(FromSmall(5)), M(<<>>)>> >>),
                 M(<< <<U(FromSmall(5)), A(<<>>)>>, <<U(FromSmall(6)), T(258, A(<<Bs(H(7, 5))>>))>>, <<U(FromSmall(7)), A(<<>>)>> >>) }
-Aux == M(<< <<U(FromSmall(674)), Tx(<<104, 105>>)>> >>)
-TxOf(ws, aux) == A(<<Body, ws, Sp(245), IF aux THEN Aux ELSE Sp(246)>>)
+\* the three forms of auxiliary data: Shelley (metadata map), Shelley-MA ([metadata, native scripts]), Alonzo (#6.259 map)
+Md == M(<< <<U(FromSmall(674)), Tx(<<104, 105>>)>> >>)
+AuxOf(form) == CASE form = "map" -> Md [] form = "array" -> A(<<Md, A(<<NativeS(5)>>)>>)
+                 [] form = "tag" -> T(259, M(<< <<U(Zero), Md>>, <<U(One), A(<<NativeS(5)>>)>>, <<U(FromSmall(3)), A(<<Bs(H(7, 5))>>)>> >>)) [] OTHER -> Sp(246)
+TxOf(ws, aux) == A(<<Body, ws, Sp(245), AuxOf(aux)>>)
 OpsSet == {"vkey1", "vkey2", "boot1"}
 Histories == UNION {[1..n -> OpsSet] : n \in 0..MaxOps}
-Cases == {[ws |-> w, aux |-> a, dev |-> d, hist |-> h] : w \in WsVariants, a \in {FALSE}, d \in {<<<<-1>>, "none">>}, h \in Histories}
-    \cup UNION {{[ws |-> w, aux |-> TRUE, dev |-> d, hist |-> h] : d \in Deviations(TxOf(w, TRUE)), h \in {<<>>, <<"vkey1">>, <<"boot1">>, <<"vkey1", "boot1">>}} :
-                 w \in {M(<< <<U(Zero), T(258, A(<<VkeyW(9)>>))>> >>), M(<< <<U(Zero), A(<<VkeyW(9), VkeyW(9)>>)>>, <<U(One), T(258, A(<<NativeS(5)>>))>> >>)}}
+W1 == M(<< <<U(Zero), T(258, A(<<VkeyW(9)>>))>> >>)
+W2 == M(<< <<U(Zero), A(<<VkeyW(9), VkeyW(9)>>)>>, <<U(One), T(258, A(<<NativeS(5)>>))>> >>)
+Cases == {[ws |-> w, aux |-> "none", dev |-> d, hist |-> h] : w \in WsVariants, d \in {<<<<-1>>, "none">>}, h \in Histories}
+    \cup UNION {{[ws |-> wa[1], aux |-> wa[2], dev |-> d, hist |-> h] : d \in Deviations(TxOf(wa[1], wa[2])), h \in {<<>>, <<"vkey1">>, <<"boot1">>, <<"vkey1", "boot1">>}} :
+                 wa \in {<<W1, "map">>, <<W2, "map">>, <<W1, "array">>, <<W1, "tag">>}}
 Init == c \in Cases
 Next == UNCHANGED c
 Bytes == Enc(TxOf(c.ws, c.aux), <<>>, c.dev[1], c.dev[2])
